@@ -9,6 +9,40 @@ def showParse : Option (Bytes × Bytes) → String
   | none => "0 x x"
   | some (svc, m) => s!"1 {toHex svc} {toHex m}"
 
+def parseSvcs (s : String) : Option (List Bytes) :=
+  if s = "-" then some [] else (s.splitOn ",").mapM parseHex
+
+/-- `e2e <namehex> <a-svcs> <b-svcs> => <code> <target> <seenhex> raw=<hex>`: real grpc client → real GRPCProxy → real
+    target. Target a claims first, then b; every pooled connection exists. Expected by the model `routeGRPC` on the
+    name EXACTLY as the client sent it (`raw` must be that name: grpc.Method(ctx) = :path verbatim), and independently
+    by the specification (`specParse`: owner of the service the path names, method string `"/" ++ strip name`). A name
+    without a service/method separator never reaches the proxy: gRPC-Go's server answers Unimplemented itself. -/
+def e2eVerdict (s : Bytes) (aS bS : List Bytes) (hx : String) (out : List String) : String :=
+  let routes : GB.C06.SvcName → Option GB.C06.SvcRoute := fun svc =>
+    if aS.contains svc then some { target := [97], ver := 0, idx := 0 }
+    else if bS.contains svc then some { target := [98], ver := 0, idx := 0 }
+    else none
+  let tname (t : Bytes) : String := if t = [97] then "a" else if t = [98] then "b" else "?"
+  let model : List String := match routeGRPC (fun _ => true) routes (some s) with
+    | .ok t _ _ rpc => ["S0", tname t, toHex rpc]
+    | .status c => [s!"S{c}", "-", "-"]
+  let spec : List String := match GB.C06.Hist.specParse s with
+    | none => ["S12", "-", "-"]
+    | some (svc, m) =>
+      if aS.contains svc then ["S0", "a", toHex (slash :: svc ++ slash :: m)]
+      else if bS.contains svc then ["S0", "b", toHex (slash :: svc ++ slash :: m)]
+      else ["S12", "-", "-"]
+  let rawOK := match out.drop 3 with
+    | [r] => r = s!"raw={hx}" || ((parseRPCName s).isNone && r = "raw=-")
+    | _ => false
+  let br := match parseRPCName s with
+    | none => "b=e2e-malformed"
+    | some (svc, _) => if (routes svc).isSome then "b=e2e-routed" else "b=e2e-unknown-service"
+  if out.take 3 ≠ spec then s!"VIOL e2e-route impl={" ".intercalate out} spec={" ".intercalate spec}"
+  else if out.take 3 ≠ model then s!"DIFF model={" ".intercalate model}"
+  else if !rawOK then s!"DIFF grpc.Method(ctx)-not-the-path-verbatim model=raw={hx}"
+  else s!"OK nt {br}"
+
 /-- area c14:
     `parse <hex> => <ok> <svchex> <methodhex>`   routing.parseRPCName
     `hist …`                                      claim histories probed through every request form -/
@@ -27,6 +61,10 @@ def handle : Handler
       if impl ≠ spec then s!"VIOL parse impl={impl} spec={spec}"
       else if impl ≠ model then s!"DIFF model={model}"
       else s!"OK{nt} {br}"
+  | ["e2e", hx, aL, bL], out =>
+    match parseHex hx, parseSvcs aL, parseSvcs bL with
+    | some s, some aS, some bS => e2eVerdict s aS bS hx out
+    | _, _, _ => "BAD c14 e2e"
   | "hist" :: inp, out => GB.C06.Hist.judgeHist inp out
   | "stress" :: rest, out => GB.C11.handle ("stress" :: rest) out   -- contested-claim stress, judged by the C11 predicates
   | _, _ => "BAD c14 line"
